@@ -1,14 +1,13 @@
 """property id -> units and reporting metadata (single source for MANIFEST.json)"""
 from units import (augment, specificity, best, fragments, static_list, hashing, vptrs, resolve, generator, handlers,
-                   virtual_ptr, deferred, slots, install, best_proof, codec, tables)
+                   virtual_ptr, deferred, slots, install, best_proof, codec, tables, methods)
 
 A_TABLES = ('compiler::build_dispatch_tables / build_dispatch_table (grouping of classes by applicability mask, stride products, recursion order, '
             'v-table entry filling) are checked BOUNDED only (units/tables: concrete registries of <= 4 classes, one method of arity <= 3, <= 4 definitions, run together '
             'with best / is_more_specific / is_base / accumulate against an oracle written from C01 / C02 / C03 / C17): I_table - "the cell selected by the argument '
             'classes\' v-table entries is the definition C01 asks for" - is established for those registries, not proved in general')
 A_AUGMENT = ('compiler::augment_classes / calculate_covariant_classes are checked BOUNDED only (units/augment: every DAG of <= 4 classes x 6 ways of presenting it), '
-             'augment_methods is NOT under contract: in the proofs cov is an arbitrary relation with the stated order axioms; '
-             'update-time lookups of unregistered method parameter classes are not checked')
+             'augment_methods on 9 concrete registries (units/methods): in the proofs cov is an arbitrary relation with the stated order axioms')
 A_INSTALL = ('compiler::install_gv (copy of tables / v-tables / slots and strides into the policy\'s dispatch data) is checked BOUNDED only '
              '(units/install: concrete registry shapes): the layout invariant I_layout the resolve proofs assume is established for those shapes, not proved in general')
 
@@ -73,7 +72,7 @@ PROPS = {
         'assumptions': [],
     },
     'C04': {
-        'units': [slots.jobs, resolve.jobs, vptrs.jobs, install.jobs, augment.jobs],
+        'units': [slots.jobs, resolve.jobs, vptrs.jobs, install.jobs, augment.jobs, methods.jobs],
         'level': 'proof',
         'technique': T_SHAPES + ' with bounds / pointer checks and a checked word-to-pointer shim for every read of the call path; '
                      'bounded CBMC over every inheritance DAG for assign_slots / assign_tree_slots / assign_lattice_slots',
@@ -164,14 +163,14 @@ PROPS = {
         'assumptions': [],
     },
     'C10': {
-        'units': [deferred.jobs, vptrs.jobs, hashing.jobs, augment.jobs],
+        'units': [deferred.jobs, vptrs.jobs, hashing.jobs, augment.jobs, methods.jobs],
         'level': 'proof',
         'technique': 'bounded CBMC on extracted resolve_static_type_ids over concrete registry layouts; publish / hash obligations quantify over every id of every class',
         'level_text': 'The flavours differ in how ids are obtained (templates, out of reach), in deferred resolution (checked bounded: every deferred id of every record is '
                       'resolved exactly once for arity 1..3, shared or distinct lists, 1..3 updates) and in one-class-many-ids (publish_vptrs and the hash are proved for every id '
                       'of every class). Class identity through Policy::type_index in augment_classes is checked bounded: every DAG of <= 4 classes registered under two ids per class '
                       '(many-to-one projection) yields one runtime class per class, known under both ids, with the same lattice.',
-        'level_note': 'class identity through Policy::type_index in augment_methods is not under contract; the deferred and augment checks are bounded',
+        'level_note': 'class identity through Policy::type_index in augment_methods is checked on one concrete registry with second ids; the deferred, augment and methods checks are bounded',
         'design_ref': 'DESIGN.md section 6 C10',
         'unverified': [A_AUGMENT, 'id acquisition templates (std_rtti, minimal_rtti, custom static_type)'],
         'assumptions': [],
@@ -189,14 +188,14 @@ PROPS = {
         'assumptions': [],
     },
     'C15': {
-        'units': [hashing.jobs, virtual_ptr.jobs, augment.jobs],
+        'units': [hashing.jobs, virtual_ptr.jobs, augment.jobs, methods.jobs],
         'level': 'proof',
         'technique': 'DFCC contract on the checked lookup + rejection lemma; loop-free proofs of the checked virtual_ptr constructor and final',
         'level_text': 'Call time: the checked hash returns only for ids that pass the range / identity test and (lemma from checked hash_initialize\'s postcondition) those are '
                       'registered; any other id is reported once as unknown_class_error with that id and the lookup does not return, before the vptr vector is read. The checked '
                       'virtual_ptr constructor reports an unregistered dynamic class on BOTH routes (lookup and exact-static-type shortcut, also with a stale static vptr); final '
                       'reports a dynamic != static mismatch as method_table_error.',
-        'level_note': 'update-time diagnosis: an unregistered BASE in augment_classes is checked on one concrete registry (bounded); unregistered method parameter classes (augment_methods) are not under contract; smart-pointer flavours of final not modelled',
+        'level_note': 'update-time diagnosis: an unregistered BASE in augment_classes is checked on one concrete registry (bounded); an unregistered method or definition parameter class in augment_methods is checked on four concrete registries (bounded); smart-pointer flavours of final not modelled',
         'design_ref': 'DESIGN.md section 6 C15',
         'unverified': [A_AUGMENT],
         'assumptions': [],
